@@ -34,13 +34,7 @@ def generate(repo):
                      'if validateSeq:\n    seq = seq.upper()\n    seq = self.validateSequence(seq)',
                      'self.seq = seq.upper()', 'self.len = len(seq)']:
             need(frag in gs, 'Sequence.__init__: missing `%s`' % frag[:50])
-        v = find_func(sq, 'validateSequence', 'Sequence')
-        vs = W(ast.unparse(v))
-        for frag in ['AAs = list(data.aminoacids.ONE_TO_THREE.keys())', 'for i in seq:', 'if i not in AAs:',
-                     'if i.isspace():', "raise SequenceException('Invalid amino acid [' + str(i) + '] found at position ' + str(pos))",
-                     'processed = processed + i', "prolineContent = float(processed.count('P')) / float(len(processed))",
-                     'return processed']:
-            need(frag in vs, 'validateSequence: missing `%s`' % frag[:50])
+        # validateSequence itself is tied semantically (g_minipy -> Props/Tie/minipy_validate_tie.v), not by shape
         ln = W(ast.unparse(find_func(sp, '__len__', 'SequenceParameters')))
         gl = W(ast.unparse(find_func(sp, 'get_length', 'SequenceParameters')))
         gq = W(ast.unparse(find_func(sp, 'get_sequence', 'SequenceParameters')))
@@ -60,10 +54,7 @@ def generate(repo):
             need(frag in src, 'parseSeqFile: missing `%s`' % frag[:40])
         v = find_func(fp, '__validSeq', 'SequenceFileParser')
         vs = W(ast.unparse(v))
-        for frag in ['for i in sequence:', 'if i not in list(ONE_TO_THREE.keys()):', "if i == ' ':\n            continue",
-                     "elif i == '*':\n            parsed_seq = parsed_seq + i\n            continue",
-                     "elif i in '1234567890':", 'raise SequenceFileParserException(', 'parsed_seq = parsed_seq + i\n    return parsed_seq']:
-            need(frag in vs, '__validSeq: missing `%s`' % frag[:40])
+        # the body of __validSeq is tied semantically (g_minipy -> Props/Tie/minipy_validseq_tie.v); only the digit string is read here
         digits = None
         for n in ast.walk(v):
             if isinstance(n, ast.Compare) and isinstance(n.ops[0], ast.In) and ast.unparse(n.left) == 'i' \
